@@ -18,15 +18,17 @@ def tla_set(items):
 def run(ctx):
     binary = ctx.gobuild("c25")
     # U1: the channel model
-    maxrec = 2 if ctx.quick else 4
-    r = ctx.tlc("TLSRecordMC", "TLSRecord_mc.cfg", subst={"MAXREC": maxrec, "MAXFAULTS": 2}, timeout=3000,
-                label="TLSRecordMC records<=%d faults<=2" % maxrec)
-    if r.distinct < 1000:
-        raise Machinery("TLSRecordMC explored only %d states" % r.distinct)
+    # (records, faults, start values of the 8-octet sequence number: zero / every carry boundary / end of range)
+    runs = [(2, "CarryStarts")] if ctx.quick else [(4, "ZeroStart"), (3, "CarryStarts")]
+    for maxrec, starts in runs:
+        r = ctx.tlc("TLSRecordMC", "TLSRecord_mc.cfg", subst={"MAXREC": maxrec, "MAXFAULTS": 2, "STARTS": starts}, timeout=6000,
+                    label="TLSRecordMC records<=%d faults<=2 %s" % (maxrec, starts))
+        if r.distinct < 1000:
+            raise Machinery("TLSRecordMC explored only %d states" % r.distinct)
 
     # U2: schedules, padding, formats, coverage obligation
     r = ctx.tlc("TLSRecordGen", "TLSRecord_gen.cfg",
-                subst={"PARTS": tla_set(["sched", "pad", "fmt", "combos"]), "MAXREC": 4, "MAXFAULTS": 2,
+                subst={"PARTS": tla_set(["sched", "pad", "fmt", "seqfmt", "long", "combos"]), "MAXREC": 4, "MAXFAULTS": 2,
                        "ALLPLANS": "TRUE" if ctx.thorough else "FALSE", "OUT": "rec_"},
                 workers=1, timeout=3000, label="TLSRecordGen")
     summ = {}
@@ -34,10 +36,10 @@ def run(ctx):
         if line.startswith('"{') and "part" in line:
             d = json.loads(json.loads(line))
             summ[d["part"]] = d
-    for part in ("sched", "pad", "fmt", "combos"):
+    for part in ("sched", "pad", "fmt", "seqfmt", "long", "combos"):
         if summ.get(part, {}).get("cases", 0) == 0:
             raise Machinery("TLSRecordGen produced no %s cases" % part)
-    if summ["sched"]["errors"] == 0 or summ["sched"]["clean"] == 0 or summ["pad"]["good"] == 0:
+    if summ["sched"]["errors"] == 0 or summ["sched"]["clean"] == 0 or summ["pad"]["good"] == 0 or summ["long"]["errors"] == 0:
         raise Machinery("vacuous case set: %s" % summ)
 
     p = ctx.run(binary, ["combos", ctx.specfile("rec_combos.ndjson")], timeout=1200)
@@ -62,6 +64,23 @@ def run(ctx):
     c, st = ctx.harness_output(p)
     cands += c
     nfmt = st.get("records", 0)
+    # the sequence number on its carry boundaries, function level
+    p = ctx.run(binary, ["seqfmt", ctx.specfile("rec_seqfmt.ndjson")], timeout=1200)
+    c, st = ctx.harness_output(p)
+    cands += c
+    nseq = st.get("records", 0)
+    if nseq == 0:
+        raise Machinery("no sequence-number boundary record was checked")
+    # long streams (600 records) with faults at distances around 255 / 256 / 510
+    p = ctx.run(binary, ["replay-sched", ctx.specfile("rec_long.ndjson"), "long-quick" if ctx.quick else "long-all"], timeout=6000)
+    c, st = ctx.harness_output(p)
+    cands += c
+    lstats = st.get("stats", {})
+    if lstats.get("runs", 0) == 0 or lstats.get("skipped", 0):
+        raise Machinery("long-stream schedules: %s" % lstats)
+    ctx.cov["long_stream_runs"] = lstats
+    ctx.cov["long_stream_runs_per_class"] = st.get("per_class", {})
+    ctx.cov["sequence_boundary_records"] = nseq
     p = ctx.run(binary, ["replay-sched", ctx.specfile("rec_sched.ndjson"), "class" if ctx.quick else "all"], timeout=6000)
     c, st = ctx.harness_output(p)
     cands += c
@@ -79,7 +98,7 @@ def run(ctx):
                  "property, unexpected for this implementation)" % stats["delivered_less_than_accepted"])
     ctx.cov["schedule_runs"] = stats
     ctx.cov["schedule_runs_per_class"] = st.get("per_class", {})
-    ctx.cov["evaluations"] += stats.get("runs", 0) + npad + nfmt
+    ctx.cov["evaluations"] += stats.get("runs", 0) + lstats.get("runs", 0) + npad + nfmt + nseq
     ctx.cov["distinct_nontrivial"] += summ["sched"]["errors"] + summ["pad"]["good"]
     ctx.cov["traces_validated_against_impl"] += stats.get("runs", 0)
     ctx.cov["exhaustive"] = True
@@ -89,7 +108,11 @@ def run(ctx):
     # U3: recorded random executions judged by TLC
     ntr = 300 if ctx.quick else 4000
     out = ctx.path("rec_trace.ndjson")
-    ctx.run(binary, ["record", out, str(ntr)], timeout=3000)
+    p = ctx.run(binary, ["record", out, str(ntr)], timeout=3000)
+    _, st = ctx.harness_output(p)
+    if st.get("bulk_traces", 0) < 12:
+        raise Machinery("the bulk-transfer class (dynamic record sizing on, 32 KiB / 256 KiB writes) was not recorded: %s" % st)
+    ctx.cov["bulk_transfer_traces"] = st.get("bulk_traces")
     events = read_ndjson(out)
     specs = {s["id"]: s for s in read_ndjson(out + ".specs")}
     acc, rejects = ctx.trace_validate("Trace_TLSRecord", "TLSRecord_trace.cfg", "rec_trace.ndjson", events, timeout=3000)
@@ -102,7 +125,7 @@ def run(ctx):
         last = rej[-1]
         sig = {"kind": "trace-rejected", "class": spec["combo"]["class"], "event": last["ev"],
                "end": last.get("end", ""), "match": last.get("match", ""),
-               "faults": sorted(set(f["kind"] for f in spec["faults"]))}
+               "faults": sorted(set(f["kind"] for f in (spec.get("faults") or [])))}
         tc.append({"sig": sig,
                    "what": "execution on %#06x/%#06x/%s rejected by Trace_TLSRecord at %s"
                            % (spec["combo"]["ver"], spec["combo"]["suite"], spec["combo"]["key"], json.dumps(last)),
